@@ -149,7 +149,7 @@ CHECKS = {
         "Both hypotheses hold for every accepted filter: callsOk by C10.parse_image (Props/C10Image.lean), durOk by C06.accepted_litOk (Props/C06Image.lean, ASCII texts).",
    note="Trusted: Lean kernel, standard axioms, Spec/TypesStrict.lean, harness. Partial: the ORM backends' outcome classes are observed on the real code only (Django's and "
         "SQLAlchemy's internals are not modelled); a refusal raised by the host ORM itself (Django FieldError) is counted as a refusal. Nine leaks were repaired first "
-        "(fix: b3ff485 c4949ac 0ae8f2a a3e3835 2c1d307 aff910a a628179 4813a75 3d0299d e93080a 235cac7 71c633b). Judged on every run besides the matrix: in-list completeness on the ORMs (every element incl. null "
+        "(fix: b3ff485 c4949ac 0ae8f2a a3e3835 2c1d307 aff910a a628179 4813a75 3d0299d e93080a 235cac7 71c633b cf3d3cd). Judged on every run besides the matrix: in-list completeness on the ORMs (every element incl. null "
         "reaches the compiled IN list), literals without a value (2020-02-30) must be refused by the value-binding backends, field names that are attributes of the lookup objects (items, values, registry, "
         "__tablename__ ...) are that column or an invalid field.",
    design="§6 C12", technique="Lean 4 proof (never-foreign by mutual induction + kernel-checked arity table) + tie theorems on handler matrix and exception tree + exhaustive differential correspondence + outcome classification on all seven backends"),
